@@ -2,6 +2,9 @@
   C17 — Conventional pagers are resolved correctly (page-number algorithm).
   Definitions: Props/C17Defs.lean; per-family cell checks: Props/C17Fam*.lean.
 -/
+import Distill.Proofs.Terms
+import Distill.Gen.Tables
+import Distill.Gen.Funcs
 import Distill.Proofs.Pagination
 import Distill.Proofs.PageGroups
 import Distill.Props.C17Fam0
@@ -110,5 +113,32 @@ example : prevNextResult [] [⟨"http://e.com/a?page=1", 25⟩, ⟨"http://e.com
 
 /-- the table is not empty: 7 families, 77 cells each -/
 theorem coverage : pagerFamilies.length = 7 ∧ allCells.length = 77 := by decide +kernel
+
+/-! ### how the current page, shown as plain text, is read -/
+
+/-- the three functions and the four regular expressions `Model/Terms.lean` spells out are the
+ones in the source -/
+theorem term_reading_tie :
+    Gen.pageTermBodies = Gen.pageTermBodiesExpected ∧
+    Gen.modelledRegexps.lookup "internal/pagination.rxNumber" = some "\\d" ∧
+    Gen.modelledRegexps.lookup "internal/pagination.rxTerms" = some "(?i)(\\S*[\\w\\x{00C0}-\\x{1FFF}\\x{2C00}-\\x{D7FF}]\\S*)" ∧
+    Gen.modelledRegexps.lookup "internal/pagination.rxSurroundingDigits" = some "(?i)^[\\W_]*(\\d+)[\\W_]*$" ∧
+    Gen.modelledRegexps.lookup "internal/pagination.rxLinkNumberCleaner" = some "[()\\[\\]{}]" := by
+  refine ⟨rfl, ?_, ?_, ?_, ?_⟩ <;> decide +kernel
+
+/-- **The current page is recognised whatever decorates it**: a run of ASCII digits between any
+characters that are neither ASCII letters nor digits — brackets, dashes, dots, guillemets, no-break
+or ideographic spaces, CJK — is read as that number. -/
+theorem decorated_current_page (pre ds suf : List Char)
+    (hpre : pre.all (fun c => !Pg.isAsciiAlnum c) = true)
+    (hds : ds.all Pg.isAsciiDigit = true) (hne : ds ≠ [])
+    (hsuf : suf.all (fun c => !Pg.isAsciiAlnum c) = true) :
+    Pg.termNumber (pre ++ ds ++ suf) = some (Pg.digitsVal ds) :=
+  Pg.decorated_number pre ds suf hpre hds hne hsuf
+
+/-- and a term that holds an ASCII letter never is -/
+theorem lettered_term_is_no_number (t : List Char) (c : Char) (hc : c ∈ t)
+    (hl : Pg.isAsciiAlnum c = true) (hnd : Pg.isAsciiDigit c = false) : Pg.termNumber t = none :=
+  Pg.letter_term_not_number t c hc hl hnd
 
 end Distill.C17
